@@ -37,7 +37,7 @@ func (o op) String() string { return fmt.Sprintf("%s(%d)", o.Name, o.Arg) }
 
 var opNames = []string{"Write", "WritePDF", "Subset", "Clone", "FontBBox", "Widths", "WidthsPDF", "GlyphBBoxes",
 	"GlyphBBox", "GlyphWidthPDF", "FontBBoxPDF", "MakeGlyphNames", "GetFontInfo", "AsCFFWrite", "Layout", "Apply",
-	"ExplainGsub", "ExplainGpos", "IsFixedPitch", "PostScriptName", "NumGlyphs", "BuiltinEncoding"}
+	"ExplainGsub", "ExplainGpos", "IsFixedPitch", "PostScriptName", "NumGlyphs", "BuiltinEncoding", "GlyphNames"}
 
 var writerOps = map[string]bool{"Write": true, "WritePDF": true, "Subset": true, "Layout": true, "AsCFFWrite": true, "Apply": true}
 
@@ -150,6 +150,13 @@ func run(f *sfnt.Font, o op) (res string) {
 			res = fmt.Sprint(f.GlyphWidthPDF(glyph.ID(o.Arg % n)))
 		case "MakeGlyphNames":
 			res = strings.Join(f.MakeGlyphNames(), "|")
+		case "GlyphNames":
+			var sb strings.Builder
+			for gid := 0; gid < n; gid++ {
+				sb.WriteString(f.GlyphName(glyph.ID(gid)))
+				sb.WriteByte('|')
+			}
+			res = sb.String()
 		case "GetFontInfo":
 			res = fmt.Sprintf("%+v", *f.GetFontInfo())
 		case "AsCFFWrite":
@@ -285,7 +292,11 @@ func schedules(t *testing.T, cold bool) {
 		if rapid.Bool().Draw(t, "subsettable") {
 			layout = genfont.LayoutSubset
 		}
-		c := genfont.Gen(genfont.Opts{MaxGlyphs: 24, MinGlyphs: 2, Layout: layout}).Draw(t, "font")
+		names := genfont.NamesProper
+		if rapid.IntRange(0, 3).Draw(t, "wildNames") == 0 {
+			names = genfont.NamesWild // duplicate, empty and invalid glyph names
+		}
+		c := genfont.Gen(genfont.Opts{MaxGlyphs: 24, MinGlyphs: 2, Layout: layout, Names: names}).Draw(t, "font")
 		f := c.Font
 		deep := false
 		if layout == genfont.LayoutAll && rapid.IntRange(0, 2).Draw(t, "deepNesting") == 0 {
